@@ -211,6 +211,38 @@ def cb(b):
     return vlib.cbytes(list(b))
 
 
+def shared_task_cli(ctx, res):
+    import clilib
+    jobs = []
+    for warm in (True, False):
+        for nshare in (2, 3):
+            # stage s1 prints at once and ends last; the others print while s1 is still going; `show` depends on s1 only
+            msgs = ["first"] + ["second-%d" % k for k in range(1, nshare)]
+            stages = [{"name": "s1", "task": "emit", "env": {"MSG": msgs[0], "D1": "0", "D2": "0.9"}}]
+            for k in range(1, nshare):
+                stages.append({"name": "s%d" % (k + 1), "task": "emit", "env": {"MSG": msgs[k], "D1": "0.%d" % (2 + k), "D2": "0"}})
+            stages.append({"name": "c1", "task": "show", "depends_on": ["s1"]})
+            doc = {"tasks": {"emit": {"env": {"MSG": "warm-up text that is longer than the others", "D1": "0", "D2": "0"}, "command": ["sleep $D1; echo $MSG; sleep $D2"]},
+                             "show": {"command": ['printf %s "$EMIT_OUTPUT" > $PROJ/c1.out']}},
+                   "pipelines": {"p1": stages}}
+            jobs.append({"id": len(jobs), "files": {"cfg.json": json.dumps(doc)}, "argv": ["-c", "cfg.json", "run"] + (["emit"] if warm else []) + ["p1"],
+                         "keep": ["c1.out"], "timeout": 20, "warm": warm, "nshare": nshare})
+    out = clilib.run_cli(ctx.workdir + "/shared", jobs, timeout=20)
+    for j in jobs:
+        r = out[j["id"]]
+        res.evaluations += 1
+        res.count("shared-task-cli")
+        res.nontrivial_keys.add("shared-task-cli %s %d" % (j["warm"], j["nshare"]))
+        got = (r.get("files") or {}).get("c1.out")
+        if isinstance(got, bytes):
+            got = got.decode("latin-1")
+        if r["timeout"] or r["rc"] != 0 or got != "first\n":
+            res.violations.append({"class": None, "what": "a stage depending on stage s1 (task `emit`, which two more stages in flight at the same time also use%s) "
+                                   "does not see s1's output in EMIT_OUTPUT" % (", after a direct run of the task" if j["warm"] else ""),
+                                   "case": {"kind": "shared-task-cli", "argv": j["argv"], "config": j["files"]["cfg.json"]},
+                                   "observed": {"rc": r["rc"], "timeout": r["timeout"], "EMIT_OUTPUT seen by c1": got, "expected": "first\n", "tail": ((r.get("err") or "") + (r.get("out") or ""))[-600:]}})
+
+
 def run(ctx):
     res = vlib.Result()
     res.rule = ("producer cases: every printable ASCII character in a task name, random names x exportAs x 1..3 commands x 1..3 variations x "
@@ -218,6 +250,15 @@ def run(ctx):
                 "empty / unterminated / newline-only / 64 KiB outputs; each followed by a task that dumps its environment.  pipelines: random "
                 "DAGs on 2..5 stages in shuffled declaration order, every stage produces and dumps what it sees.  distinct = distinct case; "
                 "non-trivial = the producer writes at least one byte (producer cases) / at least one dependency edge (pipelines).")
+    # ---- several stages backed by ONE task, in flight together, after the task has (or has not) been run on its own: each stage's capture is
+    #      its own bytes, and a consumer of the stage that finished last sees that stage's text (through the binary) ----
+    if not ctx.replay_cases or any(c.get("kind") == "shared-task-cli" for c in ctx.replay_cases):
+        shared_task_cli(ctx, res)
+        if ctx.replay_cases:
+            ctx.replay_cases = [c for c in ctx.replay_cases if c.get("kind") != "shared-task-cli"]
+            if not ctx.replay_cases:
+                res.samples = [{"replayed_sections": ["shared-task-cli"]}]
+                return res
     cases = ctx.replay_cases if ctx.replay_cases else gen_cases(ctx)
     for k, c in enumerate(cases):
         c["id"] = k
